@@ -519,6 +519,32 @@ func init() {
 	})
 
 	register(&Rule{
+		Name:  "EFF-clonepure",
+		Doc:   "copy functions (clone*, Clone*) only build fresh objects: they write no memory that existed before the call, neither of the value they copy nor of any other argument",
+		Props: []string{"C13"},
+		Floor: 4,
+		Run: func(c *Ctx, s *core.Sink) {
+			e := BuildEff(c)
+			for _, f := range e.Fns {
+				if !c.P.InModule(f) || f.Synthetic != "" {
+					continue
+				}
+				if !strings.HasPrefix(strings.ToLower(f.Name()), "clone") {
+					continue
+				}
+				sum := e.Sum(f)
+				key := "clonepure/" + core.FuncName(f)
+				if len(sum.Mut) > 0 {
+					m := sum.Mut.sorted()
+					s.Bad(key, c.P.Pos(sum.MutSites[m[0]]), "a copy function writes pre-existing memory ("+strings.Join(m, ", ")+"): the copy, or the value it is bound to, is no longer a faithful copy of the original")
+				} else {
+					s.OK(key, c.P.Pos(f.Pos()), "Mut=∅")
+				}
+			}
+		},
+	})
+
+	register(&Rule{
 		Name:  "EFF-result",
 		Doc:   "the result of Clone, of (*Url).Parse and of BasicParser reaches no memory of the original / base except frozen configuration and referents that are never written",
 		Props: []string{"C13"},
